@@ -45,7 +45,7 @@ def run(ctx):
         ok = vs is not None and set(vs) <= allowed[owner]
         ctx.ob('R06.1', f'construct Assigned|{owner.split("::")[-1]}', ok,
                f'Assigned constructed in {owner.split("::")[-1]} only under old state {sorted(allowed[owner])} (observed {sorted(vs) if vs else vs})', b.loc(bi))
-    ctx.floor('R06.1', n, 4, 'construct sites of TaskRuntimeState::Assigned')
+    ctx.floor('R06.1', n, 1, 'construct sites of TaskRuntimeState::Assigned')
     # ComputeTasks recorded in create_task_mapping only under Waiting: the push into `.assigned`
     ctm = prog.body(MAPPING + 'create_task_mapping')
     pushes = []
@@ -84,7 +84,7 @@ def run(ctx):
     for w in sorted(writers):
         ctx.ob('R06.3', f'write instance_id|{w.split("::")[-1]}', w in okw or w.endswith('::handle_new_tasks'),
                f'Task.instance_id written in {w}', prog.bodies[w].loc() if w in prog.bodies else None)
-    ctx.floor('R06.3', len(writers), 2, 'writers of Task.instance_id')
+    ctx.floor('R06.3', len(writers), 1, 'writers of Task.instance_id')
     inc = prog.body(TASK + '::increment_instance_id')
     plus1 = False
     for bi, s, op, a, b_ in binops(inc):
@@ -115,7 +115,7 @@ def run(ctx):
     # ---- R06.4
     orw = prog.body(REACTOR + 'on_remove_worker')
     ii = effect_blocks(prog, orw, E_II)
-    ctx.floor('R06.4', len(ii), 3, 'increment_instance_id calls in on_remove_worker')
+    ctx.floor('R06.4', len(ii), 1, 'increment_instance_id calls in on_remove_worker')
     sites = []
     for bi, s, v, pl in state_writes(orw, TRS):
         if v in ('Waiting', 'Assigned'):
@@ -128,7 +128,7 @@ def run(ctx):
                 sites.append((bi, eff.name))
     for bi in orw.call_blocks(T + 'server::task::ComputeTasksBuilder::single_task'):
         sites.append((bi, 'ComputeTasks'))
-    ctx.floor('R06.4', len(sites), 7, 're-dispatch sites in on_remove_worker')
+    ctx.floor('R06.4', len(sites), 1, 're-dispatch sites in on_remove_worker')
     for bi, what in sites:
         vs = variants_at(orw, TRS, bi)
         vtxt = '+'.join(sorted(vs)) if vs and len(vs) < 7 else 'any'
